@@ -4,7 +4,11 @@
 //!   avra-verif replay <ID> <file>
 //!   avra-verif selftest
 
+pub mod ast;
 pub mod evidence;
+pub mod gen;
+pub mod model;
+pub mod render;
 pub mod isa;
 pub mod oracle;
 pub mod par;
